@@ -34,6 +34,22 @@ Fixpoint zero_pad (fuel : nat) (width : nat) (s : string) : string :=
 Fixpoint to_hex_upper (bs : bytes) : string :=
   match bs with [] => EmptyString | b :: r => String (hex_upper_digit (b / 16)) (String (hex_upper_digit (b mod 16)) (to_hex_upper r)) end.
 
+(* repr() of a str made of printable ASCII: single quotes unless the text has a single quote and no double quote; backslash and the
+   chosen quote are escaped *)
+Fixpoint has_char (c : ascii) (s : string) : bool :=
+  match s with EmptyString => false | String x r => Ascii.eqb x c || has_char c r end.
+Fixpoint escape_for (q : ascii) (s : string) : string :=
+  match s with
+  | EmptyString => EmptyString
+  | String x r =>
+    if Ascii.eqb x "\"%char then String "\"%char (String "\"%char (escape_for q r))
+    else if Ascii.eqb x q then String "\"%char (String x (escape_for q r))
+    else String x (escape_for q r)
+  end.
+Definition py_repr (s : string) : string :=
+  let q := if has_char "'"%char s && negb (has_char (ascii_of_N 34) s) then ascii_of_N 34 else "'"%char in
+  String q (escape_for q s ++ String q EmptyString).
+
 (* printable_field_name: printer name with trailing underscores dropped; the printer name adds one to type/property *)
 Definition printable (n : string) : string := n.
 
@@ -125,7 +141,7 @@ Fixpoint str (fuel : nat) (t : string) (v : value) {struct fuel} : result string
                       match elem_name a with
                       | Some et => bind ((fix each (l : list value) : result (list string) :=
                                             match l with [] => Ok [] | e :: r' => bind (str k et e) (fun j => bind (each r') (fun js => Ok (j :: js))) end) l)
-                                     (fun js => Ok ("[" ++ String.concat ", " (map (fun x => "'" ++ x ++ "'") js) ++ "]"))
+                                     (fun js => Ok ("[" ++ String.concat ", " (map py_repr js) ++ "]"))
                       | None => unsupported
                       end
                     | _, _ => Crash "TypeError"
